@@ -133,6 +133,15 @@ pub fn c15(case_seed: u64, acc: &mut Acc) {
         }
         strip(&mut case.program.items, &mut r);
     }
+    // a variable in scope that is never assigned on the executed path and is named like a
+    // device output: the program still reads no outputs, so static and dynamic runs must agree
+    if r.chance(60, 1000) {
+        if gen::plant_unassigned_clash(&mut case, &mut r).is_some() {
+            let mut next = 0;
+            renumber(&mut case.program.items, &mut next);
+            acc.event("planted_unassigned_variable_named_like_output", 1);
+        }
+    }
     acc.cases += 1;
     // pre-flight with the reference (draws faked at their maximum): programs that would not
     // finish within the budgets are not run at all
